@@ -351,7 +351,7 @@ func ruleG3(c *Ctx, id string) {
 				continue
 			}
 			// either on the ip==nil edge or ReleaseInode before it
-			if guardedBy(f, rs.From, func(cd Cond) (bool, bool) {
+			isNilTest := func(cd Cond) (bool, bool) {
 				if cd.Op == token.EQL && cl[cd.X] && isNilConst(cd.Y) {
 					return true, true
 				}
@@ -359,7 +359,9 @@ func ruleG3(c *Ctx, id string) {
 					return true, false
 				}
 				return false, false
-			}) {
+			}
+			if guardedBy(f, rs.From, isNilTest) || (rs.To != nil && condEdge(f, isNilTest)(rs.From, rs.To)) {
+				// (in single-exit form the nil edge itself leads to the shared return)
 				continue
 			}
 			if !MustBefore(f, callTo(V.ReleaseInode))(last) && !callTo(V.ReleaseInode)(last) {
